@@ -323,6 +323,9 @@ def change_op():
         st.fixed_dictionaries(dict(op=st.just('edit'), a=st.integers(0, 30), c=st.integers(0, 5))),
         st.fixed_dictionaries(dict(op=st.just('rehide'), a=st.integers(0, 30), b=st.integers(0, 30), c=st.integers(0, 5))),
         st.fixed_dictionaries(dict(op=st.just('wipe_outs'))),
+        # the manifest itself changes between builds
+        st.fixed_dictionaries(dict(op=st.just('add_edge'), a=st.integers(0, 30), b=st.integers(0, 30), restat=st.booleans())),
+        st.fixed_dictionaries(dict(op=st.just('remove_edge'), a=st.integers(0, 30))),
         st.fixed_dictionaries(dict(op=st.just('swap_hidden_same_content'), a=st.integers(0, 30), b=st.integers(0, 30))),
         st.fixed_dictionaries(dict(op=st.just('touch'), a=st.integers(0, 30))),
         st.fixed_dictionaries(dict(op=st.just('del_out'), a=st.integers(0, 30))),
